@@ -715,7 +715,15 @@ func (fr *Frame) builtin(st *State, ins ssa.Instruction, name string, c *ssa.Cal
 	case "close":
 		ch := args[0]
 		closed := r.get(st, "g|$closed")
-		fr.r.require(st, "close-once", fr.oblFunc(), fr.oblName(fr.anchorName(ins, "close")), sAnd(sNot(sEq(ch.S, "0")), sNot(sSelect(closed, ch.S))), fr.closeTags(), pos, "close of nil or already-closed channel "+fr.describe(c.Args[0]))
+		if tn, fld, ok := r.eng.onceProtectedClose(ins, c.Args[0]); ok {
+			// close(x.f) inside the function literal handed to x.o.Do where the type contract of x
+			// declares `once o: f`: executed at most once per object (sync.Once), and the module scan
+			// checks that there is no other close site for this field
+			r.assumes["sync.Once runs its function at most once ("+tn+"."+fld+" is closed only inside its Once)"] = true
+			fr.nopanic(st, fr.anchorName(ins, "close")+"-nil", sNot(sEq(ch.S, "0")), pos, "close of nil channel "+fr.describe(c.Args[0]))
+		} else {
+			fr.r.require(st, "close-once", fr.oblFunc(), fr.oblName(fr.anchorName(ins, "close")), sAnd(sNot(sEq(ch.S, "0")), sNot(sSelect(closed, ch.S))), fr.closeTags(), pos, "close of nil or already-closed channel "+fr.describe(c.Args[0]))
+		}
 		r.set(st, "g|$closed", sStore(closed, ch.S, "true"))
 		return Val{K: KTuple}
 	case "panic":
